@@ -3,7 +3,7 @@
    document the crashes fixed by repository commits a8b628a..98eb553: they are statements about the explicitly named
    pre-fix definitions of Model_Checkers_Prefix.v, and C01_fixed_witnesses_ok evaluates the current definitions on the
    same witnesses. *)
-From GC Require Import Base GoAst Model_Checkers Model_Checkers_Prefix Model_Checkers2 Model_Walkers Proofs_Checkers Proofs_Checkers2 Proofs_Walkers Proofs_Witnesses.
+From GC Require Import Base GoAst Model_Checkers Model_Checkers_Prefix Model_Checkers2 Model_Walkers Model_Comments Proofs_Checkers Proofs_Checkers2 Proofs_Walkers Proofs_Comments Proofs_Witnesses.
 
 Theorem C01_appendCombine_total : forall f, wf f = true -> forall s, run_appendCombine f <> Panic s.
 Proof. exact (fun f _ => appendCombine_total f). Qed.
@@ -255,3 +255,10 @@ Print Assumptions C01_unlambda_total_partial.
 Example C01_unlambda_hypothesis_satisfiable :
   wf Witnesses.w_bare_return = true /\ forallb g_unlambda_arity (all_nodes Witnesses.w_bare_return) = true.
 Proof. exact unlambda_hypothesis_satisfiable. Qed.
+
+(* ---------- deprecatedComment (DocComment walker; comment text as byte strings): l[:len(pat)], line[:len("DEPRECATED: ")]
+   and strings.Split(line, ":")[0] are in range for every file and every comment text ---------- *)
+
+Theorem C01_deprecatedComment_total : forall f cs ct s, run_deprecatedComment f cs ct <> Panic s.
+Proof. exact (deprecatedComment_total). Qed.
+Print Assumptions C01_deprecatedComment_total.
